@@ -21,11 +21,21 @@ def verdict(cls, text, **kw):
         return f"crash:{type(e).__name__}:{frame_of(e)}"
 
 
-def check_pair(rec: Rec, kind: str, base: str, variant: str, origin: str):
+def mega_variant(base, desc):
+    """A variant with millions of padding characters, from its compact description (replay files stay small)."""
+    pad = desc["char"] * desc["n"]
+    k = {"before": 0, "after": len(base), "inside": len(base) // 2}[desc["where"]]
+    return base[:k] + pad + base[k:]
+
+
+def check_pair(rec: Rec, kind: str, base: str, variant, origin: str):
     from ..lib import BIC, IBAN
-    if norm(base) != norm(variant):
+    desc = None
+    if isinstance(variant, dict):
+        desc, variant = variant, mega_variant(base, variant)
+    elif norm(base) != norm(variant):
         raise HarnessError(f"variant generator changed more than whitespace/ASCII case: {base!r} -> {variant!r}")
-    inp = {"kind": kind, "base": base, "variant": variant, "origin": origin}
+    inp = {"kind": kind, "base": base, "variant": desc if desc is not None else variant, "origin": origin}
     cls = IBAN if kind == "iban" else BIC
     modes = [{}] if kind == "iban" else [{}, {"enforce_swift_compliance": True}]
     if kind == "iban":
@@ -160,6 +170,17 @@ def shard_country(arg):
                 check_pair(rec, "iban", base, v, "ws-insert")
                 rec.case("iban-ws-insert", (base, v) if w != " " else None)
         rec.exhaustive.append("every whitespace character of W inserted at every position of a valid IBAN per country")
+        if bi == 0 and cc == "DE":
+            # padding by the million (a size ladder up to 2^26 + 1 characters; thorough: 2^28 + 1): whitespace does not count,
+            # however much of it there is
+            ladder = [{"n": 2 ** 20 + 1, "char": "\t", "where": "before"}, {"n": 2 ** 26 + 1, "char": " ", "where": "inside"}]
+            if not quick:
+                ladder += [{"n": 2 ** 24 + 1, "char": "\n", "where": "after"}, {"n": 2 ** 28 + 1, "char": " ", "where": "after"}]
+            for d_ in ladder:
+                check_pair(rec, "iban", base, d_, f"ws-mega:{d_['n']}")
+                rec.case("iban-ws-mega", (base, d_["n"]))
+            check_pair(rec, "bic", "GENODEM1GLS", {"n": 2 ** 26 + 1, "char": " ", "where": "inside"}, f"ws-mega:{2 ** 26 + 1}")
+            rec.case("bic-ws-mega", ("GENODEM1GLS", 2 ** 26 + 1))
         if bi == 0:
             # the same around the other spellings a user copies from paper or a statement: printed groups of four (upper and
             # lower case) and the lower-case compact form, each with every whitespace character before, after, on both sides,
@@ -295,6 +316,6 @@ def run(ctx):
     ctx.hyp_parallel(strategy, hyp_body, ctx.pick(8000, 300000), name="C10-hyp")
     from ._configs import stage as _config_stage
     _config_stage(ctx, ['parse', 'bic'])
-    ctx.require_classes("iban-ws-affix", "bic-ws-affix", "iban-ws-extreme", "iban-token-base", "generate-variant", "bic-ws-extreme", "bic-token-base",
+    ctx.require_classes("iban-ws-mega", "bic-ws-mega", "iban-ws-affix", "bic-ws-affix", "iban-ws-extreme", "iban-token-base", "generate-variant", "bic-ws-extreme", "bic-token-base",
                         "iban-ws-insert", "iban-valid-variant", "iban-invalid-variant", "bic-ws-insert", "bic-valid-variant",
                         "bic-invalid-variant", "hyp-iban", "hyp-bic")
